@@ -408,3 +408,53 @@ def segment_streams(fn, src_pred=None):
                     paths.append((d, em))
             streams.append((x.iter, paths, x))
     return streams
+
+
+def inline_helpers_in_function(fn, depth: int = 3):
+    """Deep copy of fn's FunctionDef in which calls of *simple helpers* (same-class methods via self./cls., local or
+    module-level functions whose body is straight-line assignments and one return) are replaced by their return expression
+    with the arguments substituted - so `a, b = self._split(x)` reads `a, b = divmod(int(x), 8)`.  Positions are kept."""
+    import ast as _ast
+    import copy
+    from ..astutil import helper_closed_return, substitute_call
+    m = fn.module
+
+    def lookup(call):
+        f = call.func
+        if isinstance(f, _ast.Name):
+            cand = m.functions.get(f"{fn.qualname}.<locals>.{f.id}") or m.functions.get(f.id)
+            return cand, None
+        if isinstance(f, _ast.Attribute) and isinstance(f.value, _ast.Name) and f.value.id in ("self", "cls") and fn.cls is not None:
+            return fn.cls.method(f.attr), f.value
+        return None, None
+
+    class T(_ast.NodeTransformer):
+        def __init__(self, d):
+            self.d = d
+
+        def visit_Call(self, node):
+            node = self.generic_visit(node)
+            if self.d <= 0:
+                return node
+            callee, recv = lookup(node)
+            if callee is None or callee is fn:
+                return node
+            closed = helper_closed_return(callee.node)
+            if closed is None:
+                return node
+            sub = substitute_call(callee.node, node, closed, receiver=recv)
+            if sub is None:
+                return node
+            sub = T(self.d - 1).visit(sub)
+            for x in _ast.walk(sub):
+                _ast.copy_location(x, node)
+            return sub
+
+        def visit_FunctionDef(self, node):
+            if node is not root:
+                return node
+            return self.generic_visit(node)
+    root = copy.deepcopy(fn.node)
+    out = T(depth).visit(root)
+    _ast.fix_missing_locations(out)
+    return out
